@@ -294,6 +294,9 @@ func c07RunActiveSingle(t *testing.T, rec *vlib.Rec, idx int, ev c07Ev) {
 		w := c07Notif(t1, 5, 0, 1)
 		want = &w
 	}
+	if want != nil {
+		want.at = t1
+	}
 	key := "c07:active-peer:outbound-" + ev.String()
 	// same root causes as on an inbound connection in OpenSent: same keys
 	pkey := c07DevKey(c07OpenSent, ev, "")
